@@ -315,11 +315,17 @@ func ruleRMW(c *Ctx) {
 		}
 		desc := "update of " + w.field + " uses no state read in another critical section"
 		sl := sliceUp(ci, w.val, w.fn)
+		own := backSlice(w.val)
 		bad := ""
 		nSame := 0
 		for v := range sl {
 			r, ok := reads[v]
 			if !ok || r.field != w.field || !sameElement(r.key, w.key) {
+				continue
+			}
+			// element keys are compared as SSA values, which only denote the same runtime value within one
+			// activation of the function: keyed accesses are related only inside the function of the store
+			if w.key != nil && (r.fn != w.fn || !own[v]) {
 				continue
 			}
 			if r.cs == nil || w.cs == nil {
